@@ -80,7 +80,15 @@ func wrapInt(v Term, b *types.Basic) Term {
 	return Sub(App("mod", SInt, Add(v, BigInt(h)), m), BigInt(h))
 }
 
-func (x *Exec) stepValue(st *State, in ssa.Value) {
+func (x *Exec) stepValue(st *State, in ssa.Value) bool {
+	if c, ok := in.(*ssa.Call); ok {
+		return x.doCall(st, c)
+	}
+	x.stepValue1(st, in)
+	return true
+}
+
+func (x *Exec) stepValue1(st *State, in ssa.Value) {
 	instr := in.(ssa.Instruction)
 	pos := instr.Pos()
 	switch in := in.(type) {
@@ -90,8 +98,6 @@ func (x *Exec) stepValue(st *State, in ssa.Value) {
 		x.doBinOp(st, in)
 	case *ssa.UnOp:
 		x.doUnOp(st, in)
-	case *ssa.Call:
-		x.doCall(st, in)
 	case *ssa.ChangeType:
 		v := x.val(st, in.X)
 		x.setVal(st, in, x.changeType(v, in.X.Type(), in.Type()))
@@ -216,7 +222,9 @@ func (x *Exec) freshAlloc(st *State) Term {
 	n := fmt.Sprintf("alloc!%d", x.nfresh)
 	x.declare(n, SInt)
 	a := Term{n, SInt}
-	st.assume(Lt(Int(0), a))
+	// objects allocated during the call lie above brk!, at distinct addresses
+	x.declare("brk!", SInt)
+	st.assume(And(Lt(Int(0), a), Eq(a, Add(Term{"brk!", SInt}, Int(int64(x.nfresh))))))
 	return a
 }
 
